@@ -66,19 +66,19 @@ package spynode
 //@   requires node != nil && tx != nil
 //@   given forall(k, 0, len(tx.TxOut), tx.TxOut[k] != nil) && forall(k, 0, len(tx.TxIn), tx.TxIn[k] != nil)
 //@   assumes value: result == Relevant(tx)
-//@   loop 2 invariant 0 <= _i && _i <= len(tx.TxOut) && fbase(node, tx) && outsClear(node, tx, _i)
-//@   loop 0 invariant r != nil && intact(r) && 0 <= rpos(r) && rpos(r) <= ntok(r) && mirrors(r, lockblob(output)) && noHit(node, lockblob(output), rpos(r)) && fbase(node, tx)
-//@   loop 0 invariant 0 <= _i2 && _i2 < len(tx.TxOut) && output == tx.TxOut[_i2] && outsClear(node, tx, _i2)
-//@   loop 3 invariant 0 <= _i && _i <= len(node.pushDataHashes) && forall(k, 0, _i, node.pushDataHashes[k] != hash) && fbase(node, tx)
-//@   loop 3 invariant r != nil && intact(r) && 1 <= rpos(r) && rpos(r) <= ntok(r) && mirrors(r, lockblob(output)) && sinceloop(rpos(r) == old(rpos(r))) && noHit(node, lockblob(output), rpos(r) - 1)
-//@   loop 3 invariant 0 <= _i2 && _i2 < len(tx.TxOut) && output == tx.TxOut[_i2] && outsClear(node, tx, _i2)
-//@   loop 3 invariant tokkindb(lockblob(output), rpos(r) - 1) == 7 && hash == pushhash(tokvalb(lockblob(output), rpos(r) - 1))
-//@   loop 4 invariant 0 <= _i && _i <= len(tx.TxIn) && fbase(node, tx) && outsClear(node, tx, len(tx.TxOut)) && insClear(node, tx, _i)
-//@   loop 1 invariant r != nil && intact(r) && 0 <= rpos(r) && rpos(r) <= ntok(r) && mirrors(r, unlockblob(input)) && noHit(node, unlockblob(input), rpos(r)) && fbase(node, tx)
-//@   loop 1 invariant 0 <= _i4 && _i4 < len(tx.TxIn) && input == tx.TxIn[_i4] && insClear(node, tx, _i4) && outsClear(node, tx, len(tx.TxOut))
+//@   loop 0 invariant 0 <= _i && _i <= len(tx.TxOut) && fbase(node, tx) && outsClear(node, tx, _i)
+//@   loop 1 invariant r != nil && intact(r) && 0 <= rpos(r) && rpos(r) <= ntok(r) && mirrors(r, lockblob(output)) && noHit(node, lockblob(output), rpos(r)) && fbase(node, tx)
+//@   loop 1 invariant 0 <= _i0 && _i0 < len(tx.TxOut) && output == tx.TxOut[_i0] && outsClear(node, tx, _i0)
+//@   loop 2 invariant 0 <= _i && _i <= len(node.pushDataHashes) && forall(k, 0, _i, node.pushDataHashes[k] != hash) && fbase(node, tx)
+//@   loop 2 invariant r != nil && intact(r) && 1 <= rpos(r) && rpos(r) <= ntok(r) && mirrors(r, lockblob(output)) && sinceloop(rpos(r) == old(rpos(r))) && noHit(node, lockblob(output), rpos(r) - 1)
+//@   loop 2 invariant 0 <= _i0 && _i0 < len(tx.TxOut) && output == tx.TxOut[_i0] && outsClear(node, tx, _i0)
+//@   loop 2 invariant tokkindb(lockblob(output), rpos(r) - 1) == 7 && hash == pushhash(tokvalb(lockblob(output), rpos(r) - 1))
+//@   loop 3 invariant 0 <= _i && _i <= len(tx.TxIn) && fbase(node, tx) && outsClear(node, tx, len(tx.TxOut)) && insClear(node, tx, _i)
+//@   loop 4 invariant r != nil && intact(r) && 0 <= rpos(r) && rpos(r) <= ntok(r) && mirrors(r, unlockblob(input)) && noHit(node, unlockblob(input), rpos(r)) && fbase(node, tx)
+//@   loop 4 invariant 0 <= _i3 && _i3 < len(tx.TxIn) && input == tx.TxIn[_i3] && insClear(node, tx, _i3) && outsClear(node, tx, len(tx.TxOut))
 //@   loop 5 invariant 0 <= _i && _i <= len(node.pushDataHashes) && forall(k, 0, _i, node.pushDataHashes[k] != hash) && fbase(node, tx)
 //@   loop 5 invariant r != nil && intact(r) && 1 <= rpos(r) && rpos(r) <= ntok(r) && mirrors(r, unlockblob(input)) && sinceloop(rpos(r) == old(rpos(r))) && noHit(node, unlockblob(input), rpos(r) - 1)
-//@   loop 5 invariant 0 <= _i4 && _i4 < len(tx.TxIn) && input == tx.TxIn[_i4] && insClear(node, tx, _i4) && outsClear(node, tx, len(tx.TxOut))
+//@   loop 5 invariant 0 <= _i3 && _i3 < len(tx.TxIn) && input == tx.TxIn[_i3] && insClear(node, tx, _i3) && outsClear(node, tx, len(tx.TxOut))
 //@   loop 5 invariant tokkindb(unlockblob(input), rpos(r) - 1) == 7 && hash == pushhash(tokvalb(unlockblob(input), rpos(r) - 1))
 //@   ensures no_false: [C08] result ==> (node.sendContracts && ContractAction(tx)) || exists(o, 0, len(tx.TxOut), hitIn(node, lockblob(tx.TxOut[o]))) || exists(o, 0, len(tx.TxIn), hitIn(node, unlockblob(tx.TxIn[o])))
 //@   ensures no_miss: [C08] !result ==> outsClear(node, tx, len(tx.TxOut)) && insClear(node, tx, len(tx.TxIn))
@@ -219,10 +219,10 @@ package spynode
 //@   opt abstract = SaveTxState FetchTxState fetchSpentOutputs
 //@   requires node != nil && node.txs != nil && handlersstorage.InvU(node.txs) && !held(node.txs.blockLock) && !held(node.txs.unconfirmedLock)
 //@   loop * invariant node != nil && same(node.txs, node.store) && handlersstorage.InvU(node.txs) && !held(node.txs.blockLock) && !held(node.txs.unconfirmedLock)
-//@   loop 0 invariant node != nil && same(node.txs, node.store) && handlersstorage.InvU(node.txs) && !held(node.txs.blockLock) && !held(node.txs.unconfirmedLock) && merkleTree != nil && len(txs) == mtnreq(merkleTree) && mtnleaf(merkleTree) >= 0
-//@   loop 0 invariant forall(k, 0, len(txs), txs[k] != nil)
-//@   loop 0 invariant forall(k, 0, mtnreq(merkleTree), mtreq(merkleTree, k) == TxHashOf(txs[k]))
-//@   loop 0 invariant forall(k, 0, mtnreq(merkleTree), mtregleaf(merkleTree, k) < mtnleaf(merkleTree))
+//@   loop 1 invariant node != nil && same(node.txs, node.store) && handlersstorage.InvU(node.txs) && !held(node.txs.blockLock) && !held(node.txs.unconfirmedLock) && merkleTree != nil && len(txs) == mtnreq(merkleTree) && mtnleaf(merkleTree) >= 0
+//@   loop 1 invariant forall(k, 0, len(txs), txs[k] != nil)
+//@   loop 1 invariant forall(k, 0, mtnreq(merkleTree), mtreq(merkleTree, k) == TxHashOf(txs[k]))
+//@   loop 1 invariant forall(k, 0, mtnreq(merkleTree), mtregleaf(merkleTree, k) < mtnleaf(merkleTree))
 //@   loop 2 invariant node != nil && same(node.txs, node.store) && 0 <= _i && _i <= len(txs) && len(merkleProofs) == len(txs) && merkleRootHash == h.MerkleRoot && sinceloop(same(h))
 //@   loop 2 invariant forall(k, 0, len(txs), txs[k] != nil && merkleProofs[k] != nil && ProofTx(merkleProofs[k]) == TxHashOf(txs[k]) && ProofRoot(merkleProofs[k]) == merkleRootHash)
 //@   loop 3 invariant sinceloop(same(txState.State, txState.Tx)) && node != nil && same(node.txs, node.store)
